@@ -1,8 +1,185 @@
 import GraafVerif.Driver.Common
-/-! Driver handlers for property C16 (ops the harness module `ops/c16.rs` emits). -/
-namespace GraafVerif.Driver.H16
-open GraafVerif GraafVerif.Driver
+import GraafVerif.Driver.ReprDesc
+import GraafVerif.Driver.H14
+import GraafVerif.Model.ConvChain
+import GraafVerif.Model.Gen
+/-!
+Driver handlers for property C16 (ops the harness module `ops/c16.rs` emits).
 
-def handlers : List (String × Handler) := []
+  conv_chain <desc> [tag …]      build `desc`, then `T::from(previous)` along the tags
+                                 (al am mx el; wu wi only last)
+      => obs_0 obs_1 … obs_k     one observation per digraph; `panic` ends the list
+  conv_from_rows <repr> <rows>   repr ∈ al am (rows of ids) | wu wi (rows of `[v w]`)
+  conv_from_arcs <repr> <arcs>   repr ∈ mx el
+      => obs | panic
+
+Oracle (on the implementation's observations only): along a chain that starts from a digraph
+with vertex set `0..order`, nothing panics and every digraph has the order, vertex list and arc
+set of the first one, weights all 1; rows / arcs: exactly the given rows resp. `max id + 1` and
+the given arc set, and `panic` for a self-loop, an out-of-range head, or no vertex (where the
+documentation says so: everything except `EdgeList::from(arcs)`).
+-/
+namespace GraafVerif.Driver.H16
+open GraafVerif GraafVerif.Driver GraafVerif.Repr GraafVerif.Conv
+
+def obsAny : Any → V
+  | .al d => obsAL d | .am d => obsAM d | .mx d => obsMX d | .el d => obsEL d | .wl d => obsWL d
+
+def build (d : GDesc) : Option Any :=
+  match d.repr with
+  | "al" => (buildAL d).map .al
+  | "am" => (buildAM d).map .am
+  | "mx" => (buildMX d).map .mx
+  | "el" => (buildEL d).map .el
+  | _ => none
+
+/-- rendering of the model's chain (`Model/ConvChain.lean`): one observation per digraph,
+`panic` for the step that panicked -/
+def renderChain (rs : List (Option Any)) : List V :=
+  rs.map (fun r => match r with | none => V.a "panic" | some d => obsAny d)
+
+/-- one observed digraph: order, vertices, arcs (with weight when weighted) -/
+structure Seen where
+  order : Nat
+  verts : List Nat
+  arcs : List (Nat × Nat)
+  weights : List Int
+
+def seen? : V → Option Seen
+  | .l [o, vs, as] => do
+    let o ← V.nat? o
+    let vs ← V.listOf? V.nat? vs
+    match V.listOf? (V.pair? V.nat? V.nat?) as with
+    | some ps => pure ⟨o, vs, ps, []⟩
+    | none =>
+      let ts ← V.listOf? (V.triple? V.nat? V.nat? V.int?) as
+      pure ⟨o, vs, ts.map (fun t => (t.1, t.2.1)), ts.map (fun t => t.2.2)⟩
+  | _ => none
+
+def chainOracle (observed : List V) : Option String :=
+  match observed with
+  | [] => some "no observation"
+  | first :: rest =>
+    match seen? first with
+    | none => some "source observation unreadable"
+    | some s0 =>
+      let want := H14.canonArcs s0.arcs
+      let rec go (i : Nat) : List V → Option String
+        | [] => none
+        | V.a "panic" :: _ => some s!"conversion {i} panicked on a valid contiguous digraph"
+        | v :: vs =>
+          match seen? v with
+          | none => some s!"observation {i} unreadable"
+          | some s =>
+            if s.order ≠ s0.order then some s!"conversion {i}: order {s.order} ≠ {s0.order}"
+            else if s.verts ≠ s0.verts then some s!"conversion {i}: vertex list differs"
+            else if H14.canonArcs s.arcs != want then some s!"conversion {i}: arc set differs"
+            else if s.weights.any (· ≠ 1) then some s!"conversion {i}: a weight is not 1"
+            else go (i + 1) vs
+      go 1 rest
+
+def hChain : Handler := fun _ args observed =>
+  match args with
+  | [desc, tags] => do
+    let d ← GDesc.parse desc
+    let tags ← V.listOf? V.atom? tags
+    let src := build d
+    let model ← match src with
+      | none => some [V.a "panic"]
+      | some s => (runChain s tags).map (fun rs => obsAny s :: renderChain rs)
+    let contiguous := d.verts == List.range d.order && d.order > 0
+    let valid := d.arcs.all (fun a => a.1 != a.2 && a.1 < d.order && a.2 < d.order)
+    let applicable := contiguous && valid
+    let propFail := if applicable then chainOracle observed else none
+    let panicked := observed.contains (V.a "panic")
+    let tl := [d.repr, (if tags.length ≥ 2 then "chain" else "single"), sizeTag d.order,
+               if applicable then "contiguous" else "outside-property",
+               if panicked then "panic" else "no-panic",
+               if tags.any (fun t => t == "wu" || t == "wi") then "to-weighted" else "unweighted"] ++
+              (match tags.getLast? with | some t => [s!"to:{t}"] | none => [])
+    pure (classify observed model propFail (nt := applicable && !d.arcs.isEmpty && !tags.isEmpty) tl)
+  | _ => none
+
+/-- `BTreeMap<usize, W>::from_iter`: key-ascending, of equal keys the last wins. -/
+def wmapOf (l : List (Nat × Int)) : List (Nat × Int) := l.foldr (fun e m => mupsert e.1 e.2 id m) []
+
+def outOf {α : Type} (obs : α → V) : Option α → List V
+  | none => [V.a "panic"]
+  | some d => [obs d]
+
+def tripleLe (a b : Nat × Nat × Int) : Bool := a.1 < b.1 || (a.1 == b.1 && a.2.1 ≤ b.2.1)
+
+/-- the expected digraph: order + arc set (+ weight per arc when `weights` is given) -/
+def expectObs (want : Option (Nat × List (Nat × Nat × Int))) (weighted : Bool) (observed : List V) : Option String :=
+  match want, observed with
+  | none, [V.a "panic"] => none
+  | none, _ => some "invalid input did not panic"
+  | some _, [V.a "panic"] => some "valid input panicked"
+  | some (n, arcs), [o] =>
+    match seen? o with
+    | none => some "unreadable observation"
+    | some s =>
+      if s.order ≠ n then some s!"order {s.order}, expected {n}"
+      else if s.verts ≠ List.range n then some "vertex list is not 0..order"
+      else if weighted then
+        let got := (s.arcs.zip s.weights).map (fun p => (p.1.1, p.1.2, p.2))
+        if s.weights.length == s.arcs.length && got.mergeSort tripleLe == arcs.mergeSort tripleLe then none
+        else some "weighted arcs differ from the given rows"
+      else if H14.canonArcs s.arcs == H14.canonArcs (arcs.map (fun a => (a.1, a.2.1))) then none
+      else some "arc set differs from the given input"
+  | some _, _ => some "unreadable observation"
+
+def hFromRows : Handler := fun _ args observed =>
+  match args with
+  | [repr, rows] => do
+    let repr ← V.atom? repr
+    if repr == "al" || repr == "am" then
+      let rows0 ← V.listOf? (V.listOf? V.nat?) rows
+      let rows := rows0.map Gen.ssetOf
+      let model := if repr == "al" then outOf obsAL (AL.fromRows rows) else outOf obsAM (AM.fromRows rows)
+      let n := rows.length
+      let arcs := rows.zipIdx.flatMap (fun p => p.1.map (fun v => (p.2, v)))
+      let selfLoop := arcs.any (fun a => a.1 == a.2)
+      let oob := arcs.any (fun a => a.2 ≥ n)
+      let want := if n = 0 || selfLoop || oob then none else some (n, arcs.map (fun a => (a.1, a.2, (1 : Int))))
+      let tags := [repr, sizeTag n, if n = 0 then "empty" else if selfLoop then "self-loop" else if oob then "head-out-of-range" else "valid"]
+      pure (classify observed model (expectObs want false observed) (nt := want.isSome && !arcs.isEmpty) tags)
+    else if repr == "wu" || repr == "wi" then
+      let rows0 ← V.listOf? (V.listOf? (V.pair? V.nat? V.int?)) rows
+      let rows := rows0.map wmapOf
+      let model := outOf obsWL (WL.fromRows rows)
+      let n := rows.length
+      let arcs := rows.zipIdx.flatMap (fun p => p.1.map (fun e => (p.2, e.1, e.2)))
+      let selfLoop := arcs.any (fun a => a.1 == a.2.1)
+      let oob := arcs.any (fun a => a.2.1 ≥ n)
+      let want := if n = 0 || selfLoop || oob then none else some (n, arcs)
+      let tags := [repr, sizeTag n, if n = 0 then "empty" else if selfLoop then "self-loop" else if oob then "head-out-of-range" else "valid"]
+      pure (classify observed model (expectObs want true observed) (nt := want.isSome && !arcs.isEmpty) tags)
+    else none
+  | _ => none
+
+def hFromArcs : Handler := fun _ args observed =>
+  match args with
+  | [repr, arcs] => do
+    let repr ← V.atom? repr
+    let arcs ← V.listOf? (V.pair? V.nat? V.nat?) arcs
+    let model ← match repr with
+      | "mx" => some (outOf obsMX (MX.fromArcs arcs))
+      | "el" => some (outOf obsEL (EL.fromArcs arcs))
+      | _ => none
+    let selfLoop := arcs.any (fun a => a.1 == a.2)
+    let n := maxId arcs + 1
+    let canon := H14.canonArcs arcs
+    let dup := canon.length < arcs.length
+    let propFail :=
+      if selfLoop then expectObs none false observed
+      else if arcs.isEmpty then (if repr == "mx" then expectObs none false observed else none)
+      else expectObs (some (n, canon.map (fun a => (a.1, a.2, (1 : Int))))) false observed
+    let tags := [repr, sizeTag n, if selfLoop then "self-loop" else if arcs.isEmpty then "empty" else if dup then "valid-dups" else "valid"]
+    pure (classify observed model propFail (nt := !selfLoop && !arcs.isEmpty) tags)
+  | _ => none
+
+def handlers : List (String × Handler) :=
+  [("conv_chain", hChain), ("conv_from_rows", hFromRows), ("conv_from_arcs", hFromArcs)]
 
 end GraafVerif.Driver.H16
